@@ -95,15 +95,26 @@ func newWSHandler(host string, dial dialFunc, conn gkm.Gauge) http.Handler {
 
 		out.SetReadDeadline(time.Time{})
 
+		// when one side has finished sending, the end of its stream is passed
+		// on by closing the write side of the other connection, which can
+		// still send its reply. An error in either direction ends the tunnel.
 		errc := make(chan error, 2)
-		cp := func(dst io.Writer, src io.Reader) {
+		cp := func(dst, src net.Conn) {
 			_, err := io.Copy(dst, src)
+			if err == nil {
+				if cw, ok := dst.(interface{ CloseWrite() error }); !ok || cw.CloseWrite() != nil {
+					err = io.EOF
+				}
+			}
 			errc <- err
 		}
 
 		go cp(out, in)
 		go cp(in, out)
 		err = <-errc
+		if err == nil {
+			err = <-errc
+		}
 		if err != nil && err != io.EOF {
 			log.Printf("[INFO] WS error for %s. %s", r.URL, err)
 		}
